@@ -32,6 +32,10 @@ HOSTILE = [
     "/arch.zip/../secret.txt", "/arch.zip/../../secret.txt", "/arch.zip//inside.txt",
     "/arch.zip/zd/../../../secret.txt", "/docs/.../a.txt", "/docs/sub/../../../secret.txt",
     "/hello.pyg|/../x", "/script.sh|../../secret.txt", "/1/../secret.txt",
+    # names the kernel refuses for their length (ENAMETOOLONG, not ENOENT) below a directory that exists in one world only,
+    # and names below a regular file (ENOTDIR), a dangling link and a link loop outside the root
+    "/../private/" + "x" * 300, "/docs/../../private/" + "y" * 256, "/../private/sub/" + "z" * 4200, "/../secret.txt/below",
+    "/../private|/MAILDIR-MESSAGE/1", "/..|/MAILDIR-MESSAGE/1", "/..?", "/../private/" + "x" * 300 + "|/MBOX-MESSAGE/1",
 ]
 
 
@@ -258,6 +262,13 @@ def _plant(tree, world):
         tree.outside("secret.txt", b"TOP-SECRET-A\n")
         tree.outside("secret.txt.abstract", b"SECRET-ABSTRACT-A\n")
         tree.outside("secret.txt.keywords", b"SECRET-KEYWORDS-A\n")
+    # a directory beside the root (with a Maildir in it), in one world only
+    import shutil as _sh
+    _sh.rmtree(os.path.join(tree.tmp, "private"), ignore_errors=True)
+    if world == "A":
+        for sub in ("private/sub", "private/new", "private/cur", "private/tmp"):
+            os.makedirs(os.path.join(tree.tmp, sub), exist_ok=True)
+        tree.outside("private/new/1", b"Subject: SECRET mail outside the root\n\nTOP-SECRET-A\n")
     cwd = os.path.join(tree.tmp, "cwd" + world)
     os.makedirs(cwd, exist_ok=True)
     if world == "A":
